@@ -13,6 +13,7 @@ pub mod c15;
 pub mod c16;
 pub mod c17;
 pub mod c18;
+pub mod c19;
 pub mod c20;
 
 pub fn run(ctx: &mut Ctx, suite: &str) {
@@ -37,6 +38,7 @@ pub fn run(ctx: &mut Ctx, suite: &str) {
         "c16" => c16::run(ctx),
         "c17" => c17::run(ctx),
         "c18" => c18::run(ctx),
+        "c19" => c19::run(ctx),
         "c20" => c20::run(ctx),
         _ => {
             eprintln!("unknown suite {suite}");
@@ -64,6 +66,8 @@ pub fn replay(ctx: &mut Ctx, tag: &str, args: &[&str]) {
         "c16a" => c16::case_add(ctx, args[0], args[1]),
         "c17" => c17::case(ctx, args[0], args[1]),
         "c18" => c18::case(ctx, args[0]),
+        "c19s" => c19::case_set(ctx, args[0], args[1]),
+        "c19w" => c19::case_writer(ctx, args[0], args[1], args[2], args[3], args[4]),
         "c20e" => c20::case_error(ctx, args[0]),
         "c20s" => c20::case_status(ctx, args[0], args[1]),
         _ => eprintln!("unknown case tag {tag}"),
